@@ -3,7 +3,8 @@ from kv_engine import *
 import conc_engine
 
 MODULE = "Feox.Props.C13"
-THEOREMS = ['Feox.C13.step_exact', 'Feox.C13.exact', 'Feox.C13.zero_when_empty', 'Feox.C13.insert_refused_changes_nothing', 'Feox.C13.reserve_within_limit', 'Feox.Kv.sweepAll_acc', 'Feox.Kv.doReopen_acc']
+THEOREMS = ['Feox.C13.step_exact', 'Feox.C13.exact', 'Feox.C13.zero_when_empty', 'Feox.C13.insert_refused_changes_nothing', 'Feox.C13.reserve_within_limit', 'Feox.Kv.sweepAll_acc', 'Feox.Kv.doReopen_acc',
+            'Feox.C13.limit_never_exceeded_concurrently', 'Feox.C13.concurrent_counter_exact', 'Feox.Conc.Reserve.step_inv']
 
 
 def run(ctx):
@@ -11,5 +12,5 @@ def run(ctx):
         "the reference map is Lean Feox.Kv.Spec; its agreement with the real store is differential testing over the generated sequences",
         "json-patch/serde_json results, the wall clock and the key->clock-shard hash are inputs of the model (recorded per call by the harness)",
         "disk reads are assumed faithful here (C05/C10 cover the bytes)",
-        "concurrent clause: checked on the scheduled interleavings of the conc engine only (harness oracle usage = sum of live footprints whenever all threads are parked or idle, and agreement with the Lean Conc system's figures); the bound 'usage never exceeds the limit under any interleaving' is proved for the sequential reservation (reserve_within_limit) and not for the CAS loop under contention",
+        "concurrent clause: checked on the scheduled interleavings of the conc engine only (harness oracle usage = sum of live footprints whenever all threads are parked or idle, and agreement with the Lean Conc system's figures); the bound 'usage never exceeds the limit under any interleaving' is proved on a model of the reservation loop (Feox.Conc.Reserve: load, weak compare-exchange with spurious failures, release; any threads, any order) whose sequential behaviour is tied by the kv engine's OutOfMemory paths - the loop itself is not driven concurrently against the model",
     ], pre_finish=conc_engine.accounting_stage)
